@@ -731,12 +731,12 @@ impl LineBuffer {
             CharSearch::BackwardAfter(c) => pos + c.len_utf8(),
             CharSearch::Forward(_) => shift + pos,
             CharSearch::ForwardBefore(_) => {
-                shift + pos
-                    - self.buf[..shift + pos]
-                        .chars()
-                        .next_back()
-                        .unwrap()
-                        .len_utf8()
+                // one grapheme (not one char) before the match
+                let end = shift + pos;
+                self.buf[..end]
+                    .grapheme_indices(true)
+                    .next_back()
+                    .map_or(end, |(i, _)| i)
             }
         })
     }
